@@ -4,10 +4,13 @@ use crate::model::*;
 use crate::rng::Rng;
 use crate::runner::{Case, Ctx, Prop, Tier, Violation};
 use crate::seams::{Sched, SimSink};
-use crate::sut::{consts_of, sut, ReadCfg};
+use crate::sut::{consts_of, sut, ReadCfg, ROp, RRes};
 use std::rc::Rc;
 
 pub struct C01;
+
+/// thorough tier only: archives holding a file longer than 2^32 bytes
+const HUGE_RUNS: u64 = 4;
 
 /// systematic part on s0: every total length 0..=4*BLOCK, 1 and 2 files, 4 layer sets
 const SYS_LEN: u64 = 4 * 128 + 1;
@@ -21,7 +24,7 @@ impl Prop for C01 {
         "exploration"
     }
     fn rule(&self) -> String {
-        "run = seeded valid writer history (start/append/end/add interleaved, boundary-biased piece sizes relative to the variant's constants) on one of the variants s0/s1/prodv/prod x 4 layer sets x level 0..11 x 1..4 recipients (one encrypted run in 30: 17, 84, 85, 86, 128, 300 or 1000 recipients; one scaled run in 25: 65..300 files of which 1-3 stay open across dozens of others; one in 60: a file with 255..4100 - thorough: 65537 - non-contiguous runs; one compressed production-size run in 10: a 4-5 MiB file of incompressible data appended in pieces of 64..512 bytes, i.e. 8000..80000 appends into one compression block, now and then with a flush after each), written to the simulated sink with full transfers, then read back through the simulated source; the first 4104 runs enumerate every content length 0..512 on s0 for 1- and 2-file archives x 4 layer sets. Oracle: listing == model names, size, bytes and stored SHA-256 per file == abstract map model. distinct_nontrivial counts distinct signatures (variant, layers, #files, interleaved, alignment class of content length vs CHUNK and BLOCK, alignment class of the encryption-layer plaintext vs CHUNK, alignment class of the file-layer stream length vs BLOCK (compression) or CHUNK, name kinds). Half of the production-size runs are ALIGNED by a solver: a model of the file-layer stream length (blocks + marker + index footer) grows one piece so that the stream handed to the compression layer is exactly k*4 MiB (or +1, -1), respectively the encryption-layer plaintext exactly k*128 KiB (or +1..5 - the footer length field alone or split in the last chunk -, 15, 16, 17, -1).".into()
+        "run = seeded valid writer history (start/append/end/add interleaved, boundary-biased piece sizes relative to the variant's constants) on one of the variants s0/s1/prodv/prod x 4 layer sets x level 0..11 x 1..4 recipients (one encrypted run in 30: 17, 84, 85, 86, 128, 300 or 1000 recipients; one scaled run in 25: 65..300 files of which 1-3 stay open across dozens of others; one in 60: a file with 255..4100 - thorough: 65537 - non-contiguous runs; one compressed production-size run in 10: a 4-5 MiB file of incompressible data appended in pieces of 64..512 bytes, i.e. 8000..80000 appends into one compression block, now and then with a flush after each), written to the simulated sink with full transfers, then read back through the simulated source; the first 4104 runs enumerate every content length 0..512 on s0 for 1- and 2-file archives x 4 layer sets. The last 4 runs of the thorough tier hold a file of 2^32 + up to 64 MiB zero bytes (streamed, compression alone / over encryption, production constants; judged on listing, announced size, streamed length and SHA-256, stored hash, and the small files around it). Oracle: listing == model names, size, bytes and stored SHA-256 per file == abstract map model. distinct_nontrivial counts distinct signatures (variant, layers, #files, interleaved, alignment class of content length vs CHUNK and BLOCK, alignment class of the encryption-layer plaintext vs CHUNK, alignment class of the file-layer stream length vs BLOCK (compression) or CHUNK, name kinds). Half of the production-size runs are ALIGNED by a solver: a model of the file-layer stream length (blocks + marker + index footer) grows one piece so that the stream handed to the compression layer is exactly k*4 MiB (or +1, -1), respectively the encryption-layer plaintext exactly k*128 KiB (or +1..5 - the footer length field alone or split in the last chunk -, 15, 16, 17, -1).".into()
     }
     fn assumptions(&self) -> Vec<String> {
         vec![
@@ -32,7 +35,7 @@ impl Prop for C01 {
     fn runs(&self, tier: Tier) -> u64 {
         match tier {
             Tier::Quick => SYS_N + 6_000,
-            Tier::Thorough => SYS_N + 120_000,
+            Tier::Thorough => SYS_N + 120_000 + HUGE_RUNS,
         }
     }
     fn make(&self, seed: u64, run: u64, tier: Tier) -> Case {
@@ -56,6 +59,19 @@ impl Prop for C01 {
             }
             ops.push(WOp::Finalize);
             return Case::new("C01", cfg, ops);
+        }
+        if tier == Tier::Thorough && run >= SYS_N + 120_000 {
+            // a file longer than 2^32 bytes (zeros, streamed through compression, alone or over encryption): sizes,
+            // offsets and counters beyond 32 bits in the writer, the index and the reader
+            let k = run - SYS_N - 120_000;
+            let layers = if k % 2 == 0 { L_COMP } else { L_COMP | L_ENC };
+            let cfg = ArcCfg { variant: "prodv".into(), layers, level: (k % 2) as u32, recipients: usize::from(layers & 1 != 0), reader: 0, rng_seed: run + 1, key_seed: 7 };
+            let n = (1usize << 32) + rng.range(1, 64 << 20) as usize;
+            let stream = Src { sched: Sched::Full, short_by: 0, extra: 0, stream: true };
+            let ops = vec![WOp::Add { name: Name::lit("before"), data: Data::Text { n: 777, seed: 2 }, src: Src::exact() }, WOp::Start { f: 1, name: Name::lit("huge") }, WOp::Append { f: 1, data: Data::Zeros { n: n / 2 }, src: stream.clone() }, WOp::Append { f: 1, data: Data::Zeros { n: n - n / 2 }, src: stream }, WOp::End { f: 1 }, WOp::Add { name: Name::lit("after"), data: Data::Text { n: 1000, seed: 4 }, src: Src::exact() }, WOp::Finalize];
+            let mut case = Case::new("C01", cfg, ops);
+            case.params.insert("huge".into(), n as i64);
+            return case;
         }
         let variant = pick_variant(&mut rng, tier);
         let vc = consts_of(variant);
@@ -157,6 +173,61 @@ impl Prop for C01 {
                 v.push(Violation::new("write-op-failed", "op", format!("valid op #{i} {} failed: {e}", case.ops[i].short())));
                 return v;
             }
+        }
+        if case.param("huge", 0) > 0 {
+            // never materialised: listing, announced size, streamed length + SHA-256 and stored hash of the huge file,
+            // bytes of the small files around it
+            use sha2::Digest;
+            crate::seams::fired("file_longer_than_2_pow_32");
+            let n = case.param("huge", 0) as u64;
+            let mut h = sha2::Sha256::new();
+            let zeros = vec![0u8; 1 << 20];
+            let mut left = n;
+            while left > 0 {
+                let k = left.min(1 << 20) as usize;
+                h.update(&zeros[..k]);
+                left -= k as u64;
+            }
+            let want: [u8; 32] = h.finalize().into();
+            let small: Vec<(String, Vec<u8>)> = case.ops.iter().filter_map(|o| if let WOp::Add { name, data, .. } = o { Some((name.string(), data.bytes())) } else { None }).collect();
+            let rcfg = ReadCfg::for_cfg(&case.cfg);
+            let mut rops = vec![ROp::List, ROp::Open { name: "huge".into() }, ROp::ReadAllDigest { n: 1 << 20 }, ROp::Hash { name: "huge".into() }];
+            for (nm, _) in &small {
+                rops.push(ROp::Open { name: nm.clone() });
+                rops.push(ROp::ReadAll { n: 4096 });
+            }
+            let out = s.read(Rc::new(sink.data()), &rcfg, &rops);
+            ctx.eval();
+            if let Some(p) = &out.panic {
+                v.push(Violation::new("rt-panic", "huge", format!("reader panicked on the archive holding a {n}-byte file: {p}")));
+                return v;
+            }
+            if let Err(e) = &out.open {
+                v.push(Violation::new("rt-open-failed", "huge", format!("valid archive (a {n}-byte file) does not open: {e}")));
+                return v;
+            }
+            let mut names: Vec<String> = small.iter().map(|(n, _)| n.clone()).chain(["huge".to_string()]).collect();
+            names.sort();
+            let r = &out.results;
+            if r.first() != Some(&RRes::Names(names)) {
+                v.push(Violation::new("rt-listing", "huge", format!("listing differs: {:?}", r.first())));
+            }
+            if r.get(1) != Some(&RRes::Opened { size: n }) {
+                v.push(Violation::new("rt-size", "huge", format!("announced size of the {n}-byte file: {:?}", r.get(1))));
+            }
+            if r.get(2) != Some(&RRes::Digest { len: n, sha: want }) {
+                v.push(Violation::new("rt-content", "huge", format!("reading the {n}-byte file to its end: {:?} (want length {n}, sha {})", r.get(2).map(|x| format!("{x:?}").chars().take(120).collect::<String>()), hex::encode(want))));
+            }
+            if r.get(3) != Some(&RRes::Hash(want)) {
+                v.push(Violation::new("rt-hash", "huge", format!("stored hash of the {n}-byte file differs from the SHA-256 of its bytes")));
+            }
+            for (i, (nm, bytes)) in small.iter().enumerate() {
+                if r.get(4 + 2 * i + 1) != Some(&RRes::Bytes(bytes.clone())) {
+                    v.push(Violation::new("rt-content", "huge-neighbour", format!("file {nm:?} stored next to the {n}-byte file reads back differently")));
+                }
+            }
+            ctx.sig(format!("huge|{}", case.cfg.layer_name()));
+            return v;
         }
         let model = model_of(&case.ops);
         let image = Rc::new(sink.data());
